@@ -162,6 +162,8 @@ pub struct ClientPlan {
 
 #[derive(Clone, Debug, PartialEq)]
 pub struct Sent {
+    /// position in the client's total order of sends and receipts
+    pub seq: u64,
     pub t_ns: u64,
     pub index: usize,
     pub label: String,
@@ -172,6 +174,8 @@ pub struct Sent {
 
 #[derive(Clone, Debug, PartialEq)]
 pub struct Received {
+    /// position in the client's total order of sends and receipts
+    pub seq: u64,
     pub t_ns: u64,
     pub phase: Phase,
     pub id: i32,
@@ -240,6 +244,7 @@ pub struct Client<'a, T: Transport> {
     keep_alives: usize,
     scheduled: Vec<Scheduled>,
     in_put: bool,
+    seq: u64,
     pub log: ClientLog,
     max_frame: usize,
 }
@@ -263,6 +268,7 @@ impl<'a, T: Transport> Client<'a, T> {
             keep_alives: 0,
             scheduled: Vec::new(),
             in_put: false,
+            seq: 0,
             log: ClientLog::default(),
             max_frame: 1 << 22,
         }
@@ -282,7 +288,8 @@ impl<'a, T: Transport> Client<'a, T> {
         let index = self.sends;
         self.sends += 1;
         let encrypted = !raw && self.enc_out.is_some();
-        self.log.sent.push(Sent { t_ns: self.now_ns(), index, label: label.to_string(), plain: plain.clone(), encrypted });
+        self.seq += 1;
+        self.log.sent.push(Sent { seq: self.seq, t_ns: self.now_ns(), index, label: label.to_string(), plain: plain.clone(), encrypted });
         if index == 0 && self.phase == Phase::Handshake {
             self.phase = self.plan.after_handshake;
         }
@@ -330,7 +337,8 @@ impl<'a, T: Transport> Client<'a, T> {
                     let pkt = Pkt::decode(self.phase, Dir::Clientbound, id, &body).map_err(|e| format!("{e:?}"));
                     self.rx.drain(..used);
                     let t_ns = self.now_ns();
-                    self.log.received.push(Received { t_ns, phase: self.phase, id, pkt: pkt.clone(), frame_len: used });
+                    self.seq += 1;
+                    self.log.received.push(Received { seq: self.seq, t_ns, phase: self.phase, id, pkt: pkt.clone(), frame_len: used });
                     if let Ok(p) = pkt {
                         self.react(p);
                     }
